@@ -4,7 +4,7 @@ import glob, json, re
 rows=[]
 caught=missed=0
 for p in sorted(glob.glob('/verif/seeded/C*/meta.json')):
-    m=json.load(open(p)); e=m.get('evaluation',{}); pid=m.get('property') or p.split('/')[-2]
+    m=json.load(open(p)); e=m.get('evaluation',{}); pid=p.split('/')[-2]
     ran=e.get('ran',{})
     res=[]
     for k,v in sorted(ran.items()):
